@@ -1024,4 +1024,16 @@ func (b *B) h()  { b.Lock(); b.Unlock() }
 func (c *C) Do() { c.b.h() }
 func (d *D) Do() { d.a.g() }
 func (c *C) Add(n int) { c.b.h() }
+func (d *D) k(ch chan int) {
+	d.a.mu.Lock()
+	d.send(ch)
+	d.a.mu.Unlock()
+}
+func (d *D) send(ch chan int) {
+	select {
+	case ch <- 1:
+	default:
+	}
+	ch <- 2
+}
 `
